@@ -5,8 +5,9 @@ broadcaster / listeners / history trackers / transmit loader / report trackers
 produced (and on the model's output), and proved of the model in Props/C19.
 
   1. one consistent chain: numbers `genesis, genesis+1, …`, each once;
-     every subscriber received every block once, equal (hash and content) to
-     the chain's block of that number;
+     every subscriber received, once, every block broadcast between its
+     subscription and its unsubscription, equal (hash and content) to the
+     chain's block of that number, and nothing else;
   2. every history handed out is strictly descending (newest first), at most
      `defaultHistoryDepth` long, made of chain blocks with their hashes; the
      last one is the newest `min count depth` blocks;
@@ -28,12 +29,15 @@ structure Params where
   range   : Nat                    -- ReportTrackerBlockRange
   reports : List (List String)     -- work ids of each report
   subms   : List Submission
+  attach  : List Nat               -- per subscriber: instant of its subscription (µs; 0: before `Start`)
+  detach  : List Nat               -- per subscriber: instant of its unsubscription (µs; 0: never)
 deriving Repr
 
 /-- the parameters of the statement for a generated case (what the driver evaluates `spec` with) -/
 def paramsOf (inp : Input) : Params :=
   { genesis := inp.genesis, count := inp.count, depth := Gen.simHistoryDepth,
-    range := reportTrackerBlockRange, reports := inp.reports, subms := inp.txs.map (·.2) }
+    range := reportTrackerBlockRange, reports := inp.reports, subms := inp.txs.map (·.2),
+    attach := inp.attach, detach := inp.detach }
 
 /-! ### 2. histories -/
 
@@ -60,8 +64,12 @@ def histsOk (p : Params) (chain : List Block) (hs : List (List BlockKey)) : Bool
 
 /-! ### 1. chain and delivery -/
 
-def chainOk (p : Params) (chain : List Block) : Bool :=
-  decide (chain.map (·.number) = chainNumbers p.genesis p.count)
+def chainOk (p : Params) (chain : List Block) (times : List Nat) : Bool :=
+  decide (chain.map (·.number) = chainNumbers p.genesis p.count) && decide (times.length = chain.length)
+
+/-- the blocks subscriber `i` must receive: those broadcast while it was attached -/
+def dueTo (p : Params) (o : Out) (i : Nat) : List Block :=
+  subChain (p.attach.getD i 0) (p.detach.getD i 0) o.chain o.times
 
 def recvOk (chain recv : List Block) : Bool :=
   decide (recv.length = chain.length) && decide ((recv.map (·.number)).Nodup) && recv.all (chain.contains ·)
@@ -139,27 +147,28 @@ def staleLatest (recv : List Block) (k : Nat) (evs : List Ev) : Bool :=
 /-! ### the property -/
 
 def spec (p : Params) (o : Out) : Bool :=
-  chainOk p o.chain &&
-  o.subs.all (fun s => recvOk o.chain s.recv) &&
-  o.subs.all (fun s => histsOk p o.chain s.hists) &&
+  chainOk p o.chain o.times &&
+  (o.subs.zip (List.range o.subs.length)).all (fun (s, i) => recvOk (dueTo p o i) s.recv) &&
+  (o.subs.zip (List.range o.subs.length)).all (fun (s, i) => histsOk p (dueTo p o i) s.hists) &&
   transmitsOk p o &&
   o.subs.all (subEventsOk p o.chain)
 
 /-- which conjunct fails first (stable wording: used to match known findings) -/
 def explain (p : Params) (o : Out) : String :=
-  if !chainOk p o.chain then "chain: block numbers are not genesis, genesis+1, … each once"
-  else if o.subs.any (fun s => s.recv.length != o.chain.length || !decide ((s.recv.map (·.number)).Nodup)) then
-    "delivery: a subscriber did not receive every block exactly once"
-  else if o.subs.any (fun s => !s.recv.all (o.chain.contains ·)) then
-    "delivery: same block number with different hash or content"
+  let subs := o.subs.zip (List.range o.subs.length)
+  if !chainOk p o.chain o.times then "chain: block numbers are not genesis, genesis+1, … each once"
+  else if subs.any (fun (s, i) => s.recv.length != (dueTo p o i).length || !decide ((s.recv.map (·.number)).Nodup)) then
+    "delivery: a subscriber did not receive every block broadcast while it was attached exactly once"
+  else if subs.any (fun (s, i) => !s.recv.all ((dueTo p o i).contains ·)) then
+    "delivery: same block number with different hash or content, or a block from outside the subscription"
   else if o.subs.any (fun s => s.hists.any fun h => !descStrict (h.map (·.number))) then
     "history: block numbers not strictly descending (newest first)"
   else if o.subs.any (fun s => s.hists.any fun h => decide (h.length > p.depth)) then
     "history: longer than the history depth"
-  else if o.subs.any (fun s => s.hists.any fun h => !h.all (entryInChain o.chain)) then
-    "history: entry is not a chain block with its hash"
-  else if o.subs.any (fun s => !histsOk p o.chain s.hists) then
-    "history: last history is not the newest blocks of the chain"
+  else if subs.any (fun (s, i) => s.hists.any fun h => !h.all (entryInChain (dueTo p o i))) then
+    "history: entry is not a block of the subscription with its hash"
+  else if subs.any (fun (s, i) => !histsOk p (dueTo p o i) s.hists) then
+    "history: last history is not the newest blocks of the subscription"
   else if !transmitsOk p o then
     (if (submittedKeys p.subms).any (fun k => acceptedCount p.subms o.accepted k != 1) then
       "transmit: a (report, round) was not accepted from exactly one submitter"
